@@ -35,6 +35,7 @@ class Universe:
         self.regions: list[Region] = []
         self.dead: set[int] = set()
         self.counter = {"o": 0, "b": 0, "r": 0, "v": 0, "e": 0}
+        self.mappers: list[tuple[dict[Any, Any], dict[Any, Any]]] = []  # (value_mapper, block_mapper) pairs kept by the caller
 
     # -- naming ---------------------------------------------------------------
     def _name(self, obj: Any, kind: str) -> str:
@@ -442,10 +443,21 @@ def snap_all(u: Universe) -> dict[int, tuple[Any, ...]]:
     return {id(r): snap_tree(u, r) for r in u.roots()}
 
 
-def canon(u: Universe, node: Any) -> tuple[Any, ...]:
+def canon(
+    u: Universe,
+    node: Any,
+    ext_values: dict[int, Any] | None = None,
+    ext_blocks: dict[int, Any] | None = None,
+    drop_operands: bool = False,
+) -> tuple[Any, ...]:
     """Isomorphism-level canonical form of the IR nested in ``node`` (an Operation or
     a Region, or a list of blocks).  References to things defined inside are by
-    preorder position, to things outside by universe name."""
+    preorder position, to things outside by universe name.  ``ext_values`` /
+    ``ext_blocks`` (id(old) -> new object) rename *outside* references first (what a
+    caller-supplied mapper asks clone to do); ``drop_operands`` emits empty operand lists
+    (the documented effect of ``clone_operands=False``)."""
+    ext_values = ext_values or {}
+    ext_blocks = ext_blocks or {}
     ops: list[Operation] = []
     blocks: list[Block] = []
 
@@ -481,12 +493,12 @@ def canon(u: Universe, node: Any) -> tuple[Any, ...]:
                 "op",
                 x.name,
                 type(x).__name__,
-                tuple(vref.get(id(v)) or ("ext", u.nm(v)) for v in x._operands),
+                () if drop_operands else tuple(vref.get(id(v)) or ("ext", u.nm(ext_values.get(id(v), v))) for v in x._operands),
                 tuple(r.type for r in x.results),
                 _attr_key(x.attributes),
                 _attr_key(x.properties),
                 x.location,
-                tuple(bref.get(id(b)) or ("ext", u.nm(b)) for b in x._successors),
+                tuple(bref.get(id(b)) or ("ext", u.nm(ext_blocks.get(id(b), b))) for b in x._successors),
                 tuple(emit(r) for r in x.regions),
             )
         if isinstance(x, Block):
